@@ -20,7 +20,9 @@ RULE = (
     "faithfulness: the record minus 'meta' equals the expected record computed from the description "
     "(type chains, units, ranges, enumerators, bindings with str() of every declared value, services); "
     "every meta cites the declaration's own line of the source; for a few schemas per run the documented "
-    "`python -m fcp encode` command line is executed and its output file compared.  distinct = grammar-feature set of "
+    "`python -m fcp encode` command line is executed and its output file compared; for every third "
+    "schema the same tree object is first used by 2-6 other consumers (verifier, packed layouts, the "
+    "dbc / can_c / cpp / nop generators) and reflected afterwards.  distinct = grammar-feature set of "
     "the description."
 )
 ASSUMPTIONS = [
@@ -48,7 +50,42 @@ def reflection_schema():
     return _cache["s"]
 
 
-def check(run, decls, text, feats_sig=None):
+def use_tree(fcp, r):
+    """History: other consumers use the SAME tree object before it is reflected (verification,
+    packed layouts, every generator).  They may fail on arbitrary schemas; that is ignored - the
+    reflection taken afterwards must still describe the schema as declared."""
+    import importlib
+    import shutil
+    from fcp.verifier import make_general_verifier
+    from fcp.encoding import make_encoder, PackedEncoderContext
+
+    log = []
+    tmp = env.scratch("c12use")
+    try:
+        ops = ["verify", "layout", "dbc", "can_c", "cpp", "nop"]
+        r.shuffle(ops)
+        for op in ops[: r.randint(2, 6)]:
+            try:
+                if op == "verify":
+                    make_general_verifier().verify(fcp)
+                elif op == "layout":
+                    enc = make_encoder("packed", fcp, PackedEncoderContext().with_unroll_arrays(True))
+                    for impl in fcp.impls:
+                        try:
+                            enc.generate(impl)
+                        except Exception:
+                            pass
+                else:
+                    importlib.import_module("fcp_" + op).Generator().generate(fcp, {"output": os.path.join(tmp, op), "templates": {}, "skels": {}})
+                log.append(op)
+            except Exception:
+                log.append(op + "(failed)")
+    finally:
+        shutil.rmtree(tmp, ignore_errors=True)
+    return log
+
+
+def check(run, decls, text, feats_sig=None, history_rng=None):
     from fcp import serde
 
     case = {"schema": text, "description": decls}
@@ -57,6 +94,9 @@ def check(run, decls, text, feats_sig=None):
         run.violation("front end rejected a well-formed schema: %r" % (res.err(),), case)
         return
     fcp = res.unwrap()
+    if history_rng is not None:
+        case["used_before_reflection"] = use_tree(fcp, history_rng)
+        run.count("reflections_after_other_uses")
     try:
         rec = fcp.reflection()
     except Exception as e:
@@ -194,7 +234,7 @@ def run(run):
         feats = PC.features(decls)
         for f in feats:
             run.count("feature/" + f)
-        check(run, decls, S.print_schema(decls), ",".join(sorted(feats)))
+        check(run, decls, S.print_schema(decls), ",".join(sorted(feats)) + ("|after-use" if i % 3 == 0 else ""), run.rng("history", i) if i % 3 == 0 else None)
         if i < run.pick(4, 40):
             cli_encode(run, decls, S.print_schema(decls), i)
     reach.stop()
@@ -202,7 +242,7 @@ def run(run):
 
 
 def conclude(run):
-    run.require("cli_encode_runs", "reflections", "records_faithful", "records_encoded", "records_round_tripped", "metas_checked",
+    run.require("cli_encode_runs", "reflections_after_other_uses", "reflections", "records_faithful", "records_encoded", "records_round_tripped", "metas_checked",
                 "feature/impl:signal-block", "feature/param:range", "feature/param:unit", "feature/decl:service", "feature/impl:extension-field")
     feats = {k[8:]: v for k, v in run.counters.items() if k.startswith("feature/")}
     for k in [k for k in run.counters if k.startswith("feature/")]:
